@@ -122,7 +122,7 @@ func parseLinkReferenceDefinition(block text.Reader, pc Context) (int, int) {
 		}
 		ref := NewReference(label, destination, nil)
 		pc.AddReference(ref)
-		block.AdvanceLine()
+		skipRemainingLines(block)
 		return startLine, endLine + 1
 	}
 	var title []byte
@@ -144,6 +144,7 @@ func parseLinkReferenceDefinition(block text.Reader, pc Context) (int, int) {
 		// not a title, the definition ends with the destination
 		ref := NewReference(label, destination, nil)
 		pc.AddReference(ref)
+		skipRemainingLines(block)
 		return startLine, endLine + 1
 	}
 
@@ -151,4 +152,16 @@ func parseLinkReferenceDefinition(block text.Reader, pc Context) (int, int) {
 	ref := NewReference(label, destination, title)
 	pc.AddReference(ref)
 	return startLine, endLine + 1
+}
+
+// skipRemainingLines moves the reader to the end of the block: the line that
+// failed to be a title is paragraph text, and a link reference definition
+// cannot interrupt a paragraph, so no further definitions follow.
+func skipRemainingLines(block text.Reader) {
+	for {
+		if line, _ := block.PeekLine(); line == nil {
+			return
+		}
+		block.AdvanceLine()
+	}
 }
